@@ -296,6 +296,14 @@ def gen_events(pid, tier, seed):
             # constants as Expression exponents stay Power nodes (no eager rewriting)
             for cval in (gen.q(2), gen.q(3), fl(2), gen.q(1), gen.q(0), gen.q(-1), gen.q(1, 2), gen.q(5, 2)):
                 ev.append({"kind": "operator", "sym": "pow", "a": a, "b": J.ConstV(cval), "k": 0, "expect_reject": False})
+            pass
+        # an operator-built node must STAY equal to the constructor-built one when it is used afterwards (embedded in a product,
+        # differentiated symbolically twice: the simplifier sees the user's own node with its memo flags set)
+        X, Y, W = gen.X, gen.Y, J.Var("w")
+        for a in (J.Add(X, J.Un("Negation", Y)), J.Mul(X, J.Un("Reciprocal", Y)), J.Add(X, Y), J.Bin("Minus", X, Y), J.Mul(X, Y, J.Un("Negation", X))):
+            for sym, k in (("powk", 3), ("powk", 2), ("neg", 0), ("mul", 0), ("add", 0)):
+                ev.append({"kind": "operator", "sym": sym, "a": a, "b": Y, "k": k, "kspell": "int", "expect_reject": False, "use_after": True})
+        for a in rnd.sample(bases, 60 if quick else 500):
             for bad in ("2.5", "0", "-1", "-2.0", "0.0", "None", "'2'", "nan", "inf", "0.3/0.1", "2.0000000001", "4.999999999", "1e-12", "[2]", "(2,)"):
                 ev.append({"kind": "operator", "sym": "powk", "a": a, "b": a, "k": 0, "bad": bad, "expect_reject": True})
             for sym in ops:
@@ -418,7 +426,19 @@ def run_impl(ev):
                     else:
                         kk = e["k"] if e.get("kspell") == "int" else float(e["k"])
                         res, ctor = a ** kk, S.NthPower(a, e["k"])
-                    e.update(raised=False, result=J.expr_to_E(res), eq_ctor=bool(res == ctor) and repr(res) == repr(ctor) and type(res) is type(ctor))
+                    ok = bool(res == ctor) and repr(res) == repr(ctor) and type(res) is type(ctor)
+                    if e.get("use_after"):
+                        w_ = S.Variable("w")
+                        for _ in range(2):
+                            try:
+                                S.Partial(S.Multiply(res, w_), w_).as_expression()
+                                S.Differential(S.Multiply(res, w_), compute_early=True)
+                            except Exception:
+                                pass
+                        fresh_ctor = {"neg": lambda: S.Negation(J.build_tree(e["a"])), "add": lambda: S.Add(J.build_tree(e["a"]), J.build_tree(e["b"])),
+                                      "mul": lambda: S.Multiply(J.build_tree(e["a"]), J.build_tree(e["b"])), "powk": lambda: S.NthPower(J.build_tree(e["a"]), e["k"])}[sym]()
+                        ok = ok and bool(res == fresh_ctor) and repr(res) == repr(fresh_ctor)
+                    e.update(raised=False, result=J.expr_to_E(res), eq_ctor=ok)
             elif kind == "ctor":
                 sp0 = e["spell"]
                 try:
